@@ -116,6 +116,11 @@ def table_cases(ctx):
             er = ErrorResponse(sys.exc_info())
         # the message is whatever encode(traceback) is; the model takes it as a parameter
         m = G.ERR_RE.match(er.body)
+        if not m:
+            ctx.oracle_fail("ErrorResponse body is not the DAP error document", {"app": "handler", "path": "/d.nope", "query": "",
+                            "dataset": "(ds x64 ())", "class": "table/unknown-ext"}, er.body[:80],
+                            "Error {\n    code = …;\n    message = …;\n}")
+            continue
         cases.append(("h-errbody %d %s" % (code, hexb(m.group(2).encode())), hexb(er.body.encode()), {"code": code}))
     from webob import Request
     r = Request.blank("/").get_response(er)
@@ -129,7 +134,7 @@ def explore(ctx, tier, search=False):
     if not hasattr(ctx, "notes_count"):
         ctx.notes_count = Counter()
     rng = ctx.rng("requests" + ("-search" if search else ""))
-    n_ds = 40 if tier == "quick" else 400
+    n_ds = 120 if tier == "quick" else 800
     if search:
         n_ds = 150
     cases = []
